@@ -210,6 +210,74 @@ Section Num.
         end
     end.
 
+  (* ---------------- FourthOrderTensor with other_fields ---------------- *)
+  (* other_fields = {key: (9x9 matrix, per-cell array)} in dict order; the constructor adds
+     mat[:, :, newaxis] * field to the values, stores the field as attribute `key` and
+     appends `key` to the constitutive parameters (so copy / restrict_to_cells treat it as
+     they treat mu and lmbda).  Arrays are assumed to have the length of mu. *)
+  Definition madd99 (a b : m99) : m99 :=
+    map (fun rs => map (fun xy => fst xy + snd xy) (combine (fst rs) (snd rs))) (combine a b).
+  Definition mscale99 (m : m99) (x : T) : m99 := map (map (fun c => c * x)) m.
+
+  Record tensor4x := { x_mu : list T; x_lmbda : list T; x_mats : list m99;
+                       x_fields : list (list T); x_values : list m99 }.
+
+  Definition cell_x (mu lmbda : T) (mats : list m99) (fvals : list T) : m99 :=
+    fold_left (fun acc mf => madd99 acc (mscale99 (fst mf) (snd mf)))
+              (combine mats fvals) (stiff_cell mu lmbda).
+
+  Definition fourth_order_x (mu lmbda : list T) (mats : list m99) (fields : list (list T))
+    : res tensor4x :=
+    if negb (Nat.eqb (length mu) (length lmbda)) then Err ValueErr
+    else Ok {| x_mu := mu; x_lmbda := lmbda; x_mats := mats; x_fields := fields;
+               x_values := map (fun c => cell_x (nthT mu c) (nthT lmbda c) mats
+                                                (map (fun f => nthT f c) fields))
+                               (seq 0 (length mu)) |}.
+
+  (* copy: constructor on copies of mu, lmbda and of every extra field; then
+     values := self.values.copy() *)
+  Definition copy4x (t : tensor4x) : res tensor4x :=
+    match fourth_order_x (x_mu t) (x_lmbda t) (x_mats t) (x_fields t) with
+    | Err e => Err e
+    | Ok c => Ok {| x_mu := x_mu c; x_lmbda := x_lmbda c; x_mats := x_mats c;
+                    x_fields := x_fields c; x_values := x_values t |}
+    end.
+
+  Fixpoint take_all (fields : list (list T)) (cells : list Z) : res (list (list T)) :=
+    match fields with
+    | [] => Ok []
+    | f :: r => match take_cells f cells with
+                | Err e => Err e
+                | Ok f' => match take_all r cells with
+                           | Err e => Err e
+                           | Ok r' => Ok (f' :: r')
+                           end
+                end
+    end.
+
+  Definition restrict4x (t : tensor4x) (cells : list Z) : res tensor4x :=
+    match copy4x t with
+    | Err e => Err e
+    | Ok c =>
+        match take_cells (x_mu c) cells with
+        | Err e => Err e
+        | Ok m =>
+            match take_cells (x_lmbda c) cells with
+            | Err e => Err e
+            | Ok l =>
+                match take_all (x_fields c) cells with
+                | Err e => Err e
+                | Ok fs =>
+                    match take_cells (x_values c) cells with
+                    | Err e => Err e
+                    | Ok v => Ok {| x_mu := m; x_lmbda := l; x_mats := x_mats c;
+                                    x_fields := fs; x_values := v |}
+                    end
+                end
+            end
+        end
+    end.
+
   (* ---------------- histories (for the tie) ---------------- *)
   Inductive op2 := Rotate (R : m33 T) | Restrict (cells : list Z) | Copy.
 
@@ -303,6 +371,30 @@ Definition agree_fourth (mu lmbda : list Q) (cells : list Z) impl0 impl_restrict
       agree_t4 (restrict4 QOps t cells) impl_restrict &&
       match restrict4 QOps t cells with
       | Ok t' => agree_t4 (copy4 QOps t') impl_copy
+      | Err _ => true
+      end
+  end.
+
+(* the same with other_fields: impl gives (mu, lmbda, extra fields, values) *)
+Definition agree_t4x (m : res (@tensor4x Q))
+           (i : iout (list Q * list Q * list (list Q) * list (list (list Q)))) : bool :=
+  match m, i with
+  | Ok t, IVal (mu, la, fs, v) =>
+      all2 close mu (x_mu t) && all2 close la (x_lmbda t) &&
+      all2 (all2 close) fs (x_fields t) && all2 close_m99 v (x_values t)
+  | Err e, IErr e' => err_eqb e e'
+  | _, _ => false
+  end.
+
+Definition agree_fourth_x (mu lmbda : list Q) (mats : list (list (list Q)))
+           (fields : list (list Q)) (cells : list Z) impl0 impl_restrict impl_copy : bool :=
+  match fourth_order_x QOps mu lmbda mats fields with
+  | Err e => agree_t4x (Err e) impl0
+  | Ok t =>
+      agree_t4x (Ok t) impl0 &&
+      agree_t4x (restrict4x QOps t cells) impl_restrict &&
+      match restrict4x QOps t cells with
+      | Ok t' => agree_t4x (copy4x QOps t') impl_copy
       | Err _ => true
       end
   end.
